@@ -11,7 +11,7 @@
    the number of values), and the running product never exceeds the number of values, so the machine
    multiplication never wraps, whatever the dims are. *)
 From Coq Require Import List ZArith Bool Lia.
-From V Require Import Case.
+From V Require Import DType Case Decode.
 Import ListNotations.
 Open Scope Z_scope.
 
@@ -104,4 +104,23 @@ Proof.
   destruct (d <? 1) eqn:Hd1; cbn [orb]; [constructor|]. apply Z.ltb_ge in Hd1.
   destruct (nv / acc <? d) eqn:Hdiv; [constructor|]. apply Z.ltb_ge in Hdiv.
   pose proof (div_ge_mul nv acc d Ha Hn Hdiv). constructor; [nia|]. apply IH; nia.
+Qed.
+
+
+(* TensorFromProto as repaired, with its loop: the same function as the model's *)
+Definition tensor_from_proto_loop (tp : tproto) : mres tval :=
+  match decode_values tp with
+  | None => MErr
+  | Some (_, None) => MErr
+  | Some (d, Some vals) =>
+      if dims_accept (Z.of_nat (List.length vals)) (tp_dims tp)
+      then MOk {| dt := d; sh := map Z.to_nat (tp_dims tp); pl := vals |} else MErr
+  end.
+Theorem tensor_from_proto_is_loop tp : tensor_from_proto tp = tensor_from_proto_loop tp.
+Proof.
+  unfold tensor_from_proto, tensor_from_proto_loop.
+  destruct (decode_values tp) as [[d [vals|]]|]; try reflexivity.
+  rewrite dims_accept_exact by lia.
+  destruct (existsb (fun x => x <? 1) (tp_dims tp)); cbn [negb andb]; [reflexivity|].
+  destruct (Z.of_nat (List.length vals) =? zprod (tp_dims tp)); reflexivity.
 Qed.
